@@ -10,12 +10,14 @@ from .ctr import ctr_backends
 TITLE = ("Decides the buffering protocol that makes CTR output independent of how the data is cut into calls (that the "
          "keystream IS E(c+i) is a value fact and is not decided): for each of the 7 back ends, BATCH = sizeof(ecounter) "
          "from type information: (R1) every success path of every setter must-stores BATCH to offset; (R2) so does init; "
-         "(R3) on the refill path one call encrypts counter -> ecounter under this context's schedule and the increment "
-         "call sites advance every lane exactly once by L = BATCH/BLOCK; (R4) set_counter defines all counter bytes "
-         "(left zero padding, null = zero) and staggers lane i by i; (R5) path-by-path through the encrypt loop: the bytes "
-         "xored from ecounter [a,a+n) are followed by offset := a+n, n <= BATCH-a, a whole batch only under size >= BATCH, "
-         "cursors out/in/size move by exactly the bytes consumed; (R6) increment helpers walk all BLOCK bytes with a "
-         "constant trip count; (R7) xor helpers and their call sites use the same offset for out, in and keystream.")
+         "(R3) a refill (one call encrypting counter -> ecounter under this context's schedule, then every lane advanced "
+         "exactly once by L = BATCH/BLOCK) happens only when the buffer is provably exhausted; (R4) set_counter defines all "
+         "counter bytes (left zero padding, null = zero) and staggers lane i by i; (R5) symbolic execution of every path of "
+         "the encrypt function (first loop iteration from the entry state, one generic iteration under an invariant, exits) "
+         "with two ghosts - pos, the first unused keystream byte, and T, the data bytes produced: every keystream xor "
+         "starts at pos, fits in the buffer and in the remaining size, offset is back in sync with pos at every back "
+         "edge and return, cursors out/in/size move by exactly T, and every iteration makes progress; (R6) increment "
+         "helpers step all BLOCK bytes once; (R7) each xor takes out and in at the same position, the bytes produced so far.")
 
 
 OFFSET_ATOM = (0, ((("fld", "offset"), 1),))
@@ -145,265 +147,12 @@ def loop_paths(f, header, body, limit=64):
 
 
 def check_encrypt(prog, an, rep, cn, b, name, f, hidx):
+    """R3 / R5 / R7 by symbolic execution of the buffering protocol (c05_proto)."""
+    from .c05_proto import Proto
     C = Ctx5(prog, an, b, f, hidx)
-    cons = construct(f)
-    loops = f.loops()
-    if len(loops) != 1:
-        rep.inconclusive("C05.R5", cons, fsite(f), "%d loops in the CTR encrypt function (expected the single data loop)" % len(loops), cfg=cn)
-        return
-    header, body = next(iter(loops.items()))
-    hphis = [i for i in f.bbmap[header]["insts"] if i["op"] == "phi"]
-    size_idx = [k for k, p in enumerate(f.params) if p["type"] in ("i64", "i32") and k != hidx]
-    BATCH, BLOCK, L = b.batch, b.block, b.lanes
-    off_key = None
-    npaths = 0
-    for (path, kind, tgt) in loop_paths(f, header, body):
-        if len(path) < 2 and kind == "exit":
-            continue        # loop not entered / finished
-        npaths += 1
-        env = {}
-        events = []
-        facts = set()
-        C.vals = {}
-        cur_off = OFFSET_ATOM
-        for n, bb in enumerate(path):
-            prev = path[n - 1] if n else None
-            for i in f.bbmap[bb]["insts"]:
-                if i["op"] == "phi" and prev is not None and bb != header:
-                    for v, pb in zip(i["ops"], i["inblocks"]):
-                        if pb == prev:
-                            env[i["id"]] = v
-                elif i["op"] == "load":
-                    fld = C.field(i["ops"][0])
-                    if fld and fld[0] == "offset":
-                        C.vals[i["id"]] = cur_off
-                elif i["op"] == "call" and i["callee"][0] == "f" and prog.resolve(f.unit, i["callee"][1]) is not None:
-                    events.append(("call", i))
-                elif i["op"] == "store":
-                    fld = C.field(i["ops"][1])
-                    if fld:
-                        events.append(("store", i, fld))
-                        if fld[0] == "offset":
-                            v = C.lf(i["ops"][0], env)
-                            C.stored_off = v
-                            cur_off = v if v is not None else (0, ((("i", i["id"]), 1),))
-                elif i["op"] == "br" and len(i["succs"]) == 2 and i["ops"][0][0] == "i":
-                    nxt = path[n + 1] if n + 1 < len(path) else tgt
-                    c = f.insts[i["ops"][0][1]]
-                    if c["op"] == "icmp":
-                        p = c["pred"]
-                        if nxt != i["succs"][0]:
-                            p = {"eq": "ne", "ne": "eq", "ult": "uge", "uge": "ult", "ule": "ugt", "ugt": "ule"}.get(p, p)
-                        x, y = C.lf(c["ops"][0], env), C.lf(c["ops"][1], env)
-                        if x is not None and y is not None:
-                            facts.add((p, x, y))
-        # classify the path
-        ecall = None
-        incs = []
-        xors = []
-        off_store = None
-        for ev in events:
-            if ev[0] == "store" and ev[2][0] == "offset":
-                off_store = ev[1]
-            if ev[0] != "call":
-                continue
-            i = ev[1]
-            flds = [C.field(o) for o in i["ops"]]
-            names = [x[0] if x else None for x in flds]
-            if "ecounter" in names and "counter" in names:
-                ecall = i
-            elif names and names[0] == "counter":
-                incs.append(i)
-            elif "ecounter" in names:
-                xors.append((i, names.index("ecounter"), flds[names.index("ecounter")]))
-        label = "%s:path[%s]" % (cons, ">".join(path[1:]) or "-")
-        # in-place discipline: whatever writes through the output cursor must read the input at the same offset
-        pphis = {}
-        for ph in hphis:
-            if ph["type"].endswith("*"):
-                a0 = C.am.of(["i", ph["id"]])
-                if a0 is not None and a0.root[0] == "arg":
-                    pphis[ph["id"]] = f.params[a0.root[1]]["name"]
-        outs = [pid for pid, nm in pphis.items() if nm.startswith("out")]
-        ins = [pid for pid, nm in pphis.items() if nm.startswith("in")]
-        for ev in events:
-            if ev[0] != "call" or not outs or not ins:
-                continue
-            i = ev[1]
-            ptrs = [C.ptr(o, env) for o in i["ops"] if o[0] in ("i", "a")]
-            o_args = [p for p in ptrs if p is not None and p[0] == ("phi", outs[0])]
-            i_args = [p for p in ptrs if p is not None and p[0] == ("phi", ins[0])]
-            if o_args and not any(ia[1] == o_args[0][1] for ia in i_args):
-                rep.violation("C05.R7", label + ":inplace", f.loc(i), "%s writes through the output cursor without taking the input at the same offset: when output and input are the same buffer the input is destroyed before it is read" % i["callee"][1], cfg=cn)
-        iphis = [ph for ph in hphis if not ph["type"].endswith("*")]
-        size_t = ("i", iphis[0]["id"]) if len(iphis) == 1 else None
-        size_lf = (0, ((size_t, 1),)) if size_t else None
-        # current values of the loop-carried cursors are the header phis
-        fixed = [x for x in xors if len(x[0]["ops"]) == 3]
-        var = [x for x in xors if len(x[0]["ops"]) == 4]
-        if not xors:
-            if ecall is not None:
-                rep.violation("C05.R5", label, f.loc(ecall), "a keystream batch is generated on this path but none of it is consumed or accounted for", cfg=cn)
-            continue
-        # R7 + extents for every xor call
-        ok7 = True
-        used = []
-        for (i, kidx, kf) in xors:
-            ptrs = [C.ptr(o, env) for k, o in enumerate(i["ops"]) if k != kidx and k < 3]
-            if any(p is None for p in ptrs) or len(ptrs) != 2:
-                rep.inconclusive("C05.R7", label, f.loc(i), "xor call operands not recognised as output/input cursors", cfg=cn)
-                ok7 = False
-                continue
-            (bo, oo), (bi, oi) = ptrs
-            koff = kf[1]
-            if koff is None:
-                # variable keystream offset: linear form of the GEP on ecounter
-                kp = C.ptr(i["ops"][kidx], env)
-                kl = None
-                g = f.insts[i["ops"][kidx][1]] if i["ops"][kidx][0] == "i" else None
-                if g is not None and g["op"] == "getelementptr" and g["gep"]["vars"]:
-                    kl = lf_const(0)
-                    for (v, sc) in g["gep"]["vars"]:
-                        l = C.lf(v, env)
-                        kl = lf_add(kl, lf_scale(l, sc)) if l is not None else None
-                koff_lf = kl
-            else:
-                koff_lf = lf_const(koff)
-            if oo != oi:
-                rep.violation("C05.R7", label, f.loc(i), "output is written at offset %s but input is read at offset %s of the same position in the stream" % (lf_str(oo), lf_str(oi)), cfg=cn)
-                ok7 = False
-            n_lf = C.lf(i["ops"][3], env) if len(i["ops"]) == 4 else lf_const(BLOCK)
-            used.append((i, oo, koff_lf, n_lf))
-        if ok7:
-            rep.ok("C05.R7", label, f.loc(xors[0][0]), "%d xor call(s): out and in use the same offset" % len(xors), cfg=cn)
-        # path kinds
-        if fixed and not var:
-            ks_offs = sorted(u[2][0] for u in used if u[2] is not None and lf_is_const(u[2]))
-            want = [k * BLOCK for k in range(L)]
-            out_offs = sorted(u[1][0] for u in used if lf_is_const(u[1]))
-            okp = True
-            if ecall is None:
-                rep.violation("C05.R3", label, f.loc(used[0][0]), "a whole batch of keystream is consumed without being generated on this path", cfg=cn)
-                okp = False
-            if ks_offs != want or out_offs != want:
-                rep.violation("C05.R5", label, f.loc(used[0][0]), "whole-batch path xors keystream offsets %s into data offsets %s, expected %s once each" % (ks_offs, out_offs, want), cfg=cn)
-                okp = False
-            if size_lf is None or not any(p in ("uge", "ugt") and x == size_lf and lf_is_const(y) and y[0] + (1 if p == "ugt" else 0) >= BATCH for (p, x, y) in facts):
-                rep.violation("C05.R5", label, f.loc(used[0][0]), "a whole batch (%d bytes) is consumed without the guard size >= %d" % (BATCH, BATCH), cfg=cn)
-                okp = False
-            if off_store is not None:
-                v = C.lf(off_store["ops"][0], env)
-                if v is None or not lf_is_const(v) or v[0] < BATCH:
-                    rep.violation("C05.R5", label, f.loc(off_store), "offset is set to %s after a whole batch was consumed (buffer would be re-used)" % (lf_str(v) if v else "?"), cfg=cn)
-                    okp = False
-            consumed = lf_const(BATCH)
-            if okp:
-                rep.ok("C05.R5", label, f.loc(used[0][0]), "whole batch: keystream [0,%d) xored block by block under size >= %d, offset stays exhausted" % (BATCH, BATCH), cfg=cn)
-        elif len(var) == 1 and not fixed:
-            (i, oo, a, n) = used[0]
-            okp = True
-            if a is None or n is None:
-                rep.inconclusive("C05.R5", label, f.loc(i), "keystream offset / length of the partial xor not a linear form", cfg=cn)
-                continue
-            if off_store is None:
-                rep.violation("C05.R5", label, f.loc(i), "%s keystream bytes are used but offset is not updated on this path: the next call re-uses or skips keystream" % lf_str(n), cfg=cn)
-                okp = False
-            else:
-                v = C.lf(off_store["ops"][0], env)
-                if v != lf_add(a, n):
-                    rep.violation("C05.R5", label, f.loc(off_store), "keystream [%s, %s+%s) is used but offset becomes %s" % (lf_str(a), lf_str(a), lf_str(n), lf_str(v) if v else "?"), cfg=cn)
-                    okp = False
-            # n <= BATCH - a
-            bound_ok = False
-            if lf_is_const(a) and a[0] == 0 and size_lf is not None and n == size_lf:
-                bound_ok = any(p in ("ult", "ule") and x == size_lf and lf_is_const(y) and y[0] - (1 if p == "ult" else 0) < BATCH for (p, x, y) in facts)
-                if ecall is None:
-                    rep.violation("C05.R3", label, f.loc(i), "keystream is consumed from offset 0 without a refill on this path", cfg=cn)
-                    okp = False
-            else:
-                # n = min(BATCH - a, size) through the `if (temp > size) temp = size` diamond
-                room = lf_add(lf_const(BATCH), a, -1)
-                if n == room:
-                    bound_ok = True
-                elif size_lf is not None and n == size_lf:
-                    # on this path temp was replaced by size because temp > size
-                    bound_ok = any(p in ("ugt", "uge") and y == size_lf and x == room for (p, x, y) in facts) or \
-                        any(p in ("ult", "ule") and x == size_lf and y == room for (p, x, y) in facts)
-                if ecall is not None:
-                    rep.violation("C05.R3", label, f.loc(ecall), "the buffer is refilled although unused keystream remains (offset < BATCH path)", cfg=cn)
-                    okp = False
-                if a == OFFSET_ATOM and not any(p in ("ult", "ule") and x == OFFSET_ATOM and lf_is_const(y) and y[0] - (1 if p == "ult" else 0) < BATCH for (p, x, y) in facts):
-                    rep.violation("C05.R5", label, f.loc(i), "left-over keystream is used without the guard offset < %d (BATCH - offset would wrap)" % BATCH, cfg=cn)
-                    okp = False
-            if not bound_ok:
-                rep.violation("C05.R5", label, f.loc(i), "length %s of the keystream xor is not bounded by the bytes left in the buffer (%d - %s)" % (lf_str(n), BATCH, lf_str(a)), cfg=cn)
-                okp = False
-            consumed = n
-            if okp:
-                rep.ok("C05.R5", label, f.loc(i), "keystream [%s, +%s) used, offset := %s, length bounded by the buffer" % (lf_str(a), lf_str(n), lf_str(lf_add(a, n))), cfg=cn)
-        else:
-            rep.inconclusive("C05.R5", label, f.loc(xors[0][0]), "mixed fixed-size and variable-size keystream use on one path", cfg=cn)
-            continue
-        # cursor discipline on latch paths
-        if kind == "latch":
-            deltas = {}
-            for ph in hphis:
-                nv = None
-                for v, pb in zip(ph["ops"], ph["inblocks"]):
-                    if pb == path[-1]:
-                        nv = v
-                if nv is None:
-                    continue
-                if ph["type"].endswith("*"):
-                    p = C.ptr(nv, env)
-                    if p is None or p[0] != ("phi", ph["id"]):
-                        deltas[ph["id"]] = None
-                    else:
-                        deltas[ph["id"]] = p[1]
-                else:
-                    l = C.lf(nv, env)
-                    base = (0, ((("i", ph["id"]), 1),))
-                    deltas[ph["id"]] = lf_add(base, l, -1) if l is not None else None    # decrease
-            bad = [ph for ph in hphis if deltas.get(ph["id"]) != consumed]
-            if bad:
-                ph = bad[0]
-                rep.violation("C05.R5", label + ":cursor", f.loc(f.term(path[-1])),
-                              "loop cursor `%s` moves by %s although %s bytes were consumed on this path" %
-                              (ph.get("name", "?"), lf_str(deltas[ph["id"]]) if deltas.get(ph["id"]) else "?", lf_str(consumed)), cfg=cn)
-            else:
-                rep.ok("C05.R5", label + ":cursor", f.loc(f.term(path[-1])), "out, in and size all move by %s" % lf_str(consumed), cfg=cn)
-        # R3 on refill paths
-        if ecall is not None:
-            flds = [C.field(o) for o in ecall["ops"]]
-            names = [x[0] if x else None for x in flds]
-            sched = [x for x in names if x in ("kt", "ks")]
-            okr = True
-            if not sched:
-                rep.violation("C05.R3", label, f.loc(ecall), "the keystream block is not encrypted under this context's own key schedule", cfg=cn)
-                okr = False
-            if names.index("ecounter") != 0 or flds[0][1] not in (0,) or flds[names.index("counter")][1] != 0:
-                rep.violation("C05.R3", label, f.loc(ecall), "refill does not encrypt counter -> ecounter from their starts", cfg=cn)
-                okr = False
-            if not any(p in ("uge", "ugt") and x == OFFSET_ATOM and lf_is_const(y) and y[0] + (1 if p == "ugt" else 0) >= BATCH for (p, x, y) in facts):
-                rep.violation("C05.R3", label, f.loc(ecall), "refill is not guarded by offset >= %d (unused keystream would be discarded)" % BATCH, cfg=cn)
-                okr = False
-            tuples = []
-            for i in incs:
-                cs = [C.lf(o, env) for o in i["ops"][1:]]
-                tuples.append(tuple(c[0] if c is not None and lf_is_const(c) else None for c in cs))
-            want = [(1,)] if L == 1 else [(k, L) for k in range(L)]
-            if sorted(tuples, key=str) != sorted(want, key=str):
-                rep.violation("C05.R3", label + ":advance", f.loc(ecall),
-                              "after a refill the counter lanes are advanced by %s, expected %s (every lane exactly once by %d)" % (sorted(tuples, key=str), want, L), cfg=cn)
-                okr = False
-            order_ok = all(f.inst_dominates(ecall["id"], i["id"]) for i in incs)
-            if not order_ok:
-                rep.violation("C05.R3", label + ":order", f.loc(ecall), "counter is advanced before it is encrypted", cfg=cn)
-                okr = False
-            if okr:
-                rep.ok("C05.R3", label, f.loc(ecall), "refill: E(counter)->ecounter under own schedule, guarded by offset >= %d, lanes advanced %s" % (BATCH, want), cfg=cn)
-    if npaths < 3:
-        rep.inconclusive("C05.R5", cons, fsite(f), "only %d paths through the encrypt loop (expected whole-batch, partial and left-over)" % npaths, cfg=cn)
+    P = Proto(prog, an, rep, cn, b, name, f, hidx, C)
+    P.run()
+    return P.inc_helpers
 
 
 def C_lf_term(C, t, env):
@@ -588,7 +337,8 @@ def run_config(ctx, rep, cfg):
                     if hf is not None and fl0 and fl0[0] == "counter":
                         helpers[hf.key] = b.block
             if name.endswith("_encrypt"):
-                check_encrypt(prog, an, rep, cn, b, name, g, h)
+                for hk in check_encrypt(prog, an, rep, cn, b, name, g, h) or ():
+                    helpers[hk] = b.block
                 C = Ctx5(prog, an, b, g, h)
                 for i in direct_calls(g):
                     fl0 = C.field(i["ops"][0]) if i["ops"] else None
